@@ -312,6 +312,53 @@ func c19(args []string) {
 		}
 	}
 	// ---- concatenator
+	// ---- concatenator grouping by a tag on a stream that mixes tagged and untagged files: tagged files go to
+	// <out>.<tag>_<value>, untagged ones to <out> itself, each in arrival order
+	for n := 1; n <= c.Pick(4, 8); n++ {
+		for rep := 0; rep < c.Pick(2, 4); rep++ {
+			s := &spec.Spec{Name: "concatmixed", MaxTasks: 4, Sources: map[string]string{}}
+			for u := 0; u < 2; u++ {
+				src := &spec.Proc{Name: fmt.Sprintf("S%d", u), Kind: spec.KFileSource}
+				for i := 0; i < n; i++ {
+					f := fmt.Sprintf("x%d_%d.txt", u, i)
+					src.Files = append(src.Files, f)
+					s.Sources[f] = fmt.Sprintf("content of %s\nsecond line", f)
+				}
+				s.Procs = append(s.Procs, src)
+			}
+			s.Procs = append(s.Procs, &spec.Proc{Name: "RT", Kind: spec.KRecorder}, &spec.Proc{Name: "RU", Kind: spec.KRecorder, DelayMS: rep % 2},
+				&spec.Proc{Name: "T", Kind: spec.KMapToTags, Tags: []*spec.TagRule{{Key: "grp", Rule: "idx"}}},
+				&spec.Proc{Name: "CC", Kind: spec.KConcat, OutPath: "all/mixed.txt", GroupBy: "grp"}, &spec.Proc{Name: "ROUT", Kind: spec.KRecorder})
+			s.Conns = append(s.Conns, &spec.Conn{From: "S0.out", To: "RT.in"}, &spec.Conn{From: "RT.out", To: "T.in"}, &spec.Conn{From: "T.out", To: "CC.in"},
+				&spec.Conn{From: "S1.out", To: "RU.in"}, &spec.Conn{From: "RU.out", To: "CC.in"}, &spec.Conn{From: "CC.out", To: "ROUT.in"})
+			src := s.Sources
+			jobs = append(jobs, &c19Job{name: "Concatenator", s: s, cfg: cfgOf([]int{1, 3}[n%2]), label: fmt.Sprintf("%d tagged + %d untagged items on one port, group by tag (%d)", n, n, rep),
+				oracle: func(res *run.Result, ti *mon.TraceIndex, exp *ref.Result) []mon.Problem {
+					want := map[string]string{"all/mixed.txt": ""}
+					for _, p := range recPaths(ti, "RU") {
+						want["all/mixed.txt"] += src[p] + "\n"
+					}
+					for _, p := range recPaths(ti, "RT") {
+						want[fmt.Sprintf("all/mixed.txt.grp_%s", ref.TagValue("idx", p))] += src[p] + "\n"
+					}
+					var ps []mon.Problem
+					var wk []string
+					for p, w := range want {
+						wk = append(wk, p)
+						b, err := os.ReadFile(filepath.Join(res.Wd, p))
+						if err != nil {
+							ps = append(ps, mon.Problem{Sig: "concatenator-output-missing", Msg: p})
+						} else if string(b) != w {
+							ps = append(ps, mon.Problem{Sig: "concatenator-content", Msg: fmt.Sprintf("%s = %q, its inputs in arrival order give %q", p, clip(string(b), 300), clip(w, 300))})
+						}
+					}
+					if !sameMultiset(recPaths(ti, "ROUT"), wk) {
+						ps = append(ps, mon.Problem{Sig: "concatenator-emitted", Msg: fmt.Sprintf("emitted %v, expected %v", recPaths(ti, "ROUT"), wk)})
+					}
+					return ps
+				}})
+		}
+	}
 	for _, fanin := range []bool{false, true} {
 		for n := 0; n <= c.Pick(4, 12); n++ {
 			for _, group := range []bool{false, true} {
@@ -659,6 +706,64 @@ func c19(args []string) {
 		} else {
 			c.Nontrivial(fmt.Sprintf("Concatenator|history|%d", rep))
 			c.Count("cases_Concatenator_history", 1)
+		}
+		c.Drop(root)
+	}
+	// ---- FileSplitter history: a first run splits one file; a second run in the same directory gets that file
+	// again followed by files that are not split yet. The already split file is skipped, the others must be split.
+	for rep := 0; rep < c.Pick(2, 6); rep++ {
+		root := c.CaseDir()
+		per := 2 + rep%2
+		mk := func(files []string) *spec.Spec {
+			s := &spec.Spec{Name: "splithist", MaxTasks: 2, Sources: map[string]string{}}
+			src := &spec.Proc{Name: "S", Kind: spec.KFileSource, Files: files}
+			for _, f := range []string{"ha.txt", "hb.txt", "hc.txt"} {
+				var sb strings.Builder
+				for l := 0; l < 5; l++ {
+					fmt.Fprintf(&sb, "%s line %d\n", f, l)
+				}
+				s.Sources[f] = sb.String()
+			}
+			s.Procs = append(s.Procs, src, &spec.Proc{Name: "SP", Kind: spec.KSplitter, Lines: per}, &spec.Proc{Name: "R", Kind: spec.KRecorder})
+			s.Conns = append(s.Conns, &spec.Conn{From: "S.out", To: "SP.file"}, &spec.Conn{From: "SP.split_file", To: "R.in"})
+			return s
+		}
+		order := [][]string{{"ha.txt", "hb.txt", "hc.txt"}, {"hb.txt", "ha.txt", "hc.txt"}}[rep%2]
+		var ps []mon.Problem
+		s1 := mk([]string{"ha.txt"})
+		r1 := execSpec(c, root, s1, Cfg{Buf: 3, Procs: 2}, nil, false, 0)
+		s2 := mk(order)
+		r2 := execSpec(c, root, s2, Cfg{Buf: 3, Procs: 2}, nil, true, 1)
+		if r1.Hang != "" || r2.Hang != "" {
+			if strings.HasPrefix(r1.Hang+r2.Hang, "deadlock") {
+				ps = append(ps, mon.Problem{Sig: "FileSplitter:hang", Msg: r1.Hang + r2.Hang})
+			} else {
+				c.Inconclusive(r1.Hang + r2.Hang)
+				c.Drop(root)
+				continue
+			}
+		} else if r1.Exit != 0 || r2.Exit != 0 {
+			ps = append(ps, mon.Problem{Sig: "FileSplitter:run-failed", Msg: fmt.Sprintf("exit %d / %d: %s", r1.Exit, r2.Exit, tail(r2.Output(), 300))})
+		} else {
+			for _, f := range order {
+				cat := ""
+				for k := 1; ; k++ {
+					b, err := os.ReadFile(filepath.Join(r2.Wd, fmt.Sprintf("%s.split_%d", f, k)))
+					if err != nil {
+						break
+					}
+					cat += string(b)
+				}
+				if cat != s2.Sources[f] {
+					ps = append(ps, mon.Problem{Sig: "splitter-parts-do-not-concatenate-to-input:rerun-history", Msg: fmt.Sprintf("second run over %v after a first run over [ha.txt]: the parts of %s concatenate to %d bytes, the file has %d", order, f, len(cat), len(s2.Sources[f]))})
+				}
+			}
+		}
+		if len(ps) > 0 {
+			c.Violation(ps[0].Sig, strings.Join(mon.Summarize(ps, 3), "\n  "), map[string]interface{}{"history": "split [ha.txt], then split " + strings.Join(order, ",") + " in the same directory", "lines_per_split": per})
+		} else {
+			c.Nontrivial(fmt.Sprintf("FileSplitter|history|%d", rep))
+			c.Count("cases_FileSplitter_history", 1)
 		}
 		c.Drop(root)
 	}
